@@ -16,6 +16,8 @@ THEOREMS = [(M, "NQ.C03." + n) for n in [
     "F3_old_code_counterexample", "F3_fixed_witness", "nonvacuous_loop",
     "macro_pass_tokenwise", "macros_tokenwise", "F4_old_code_counterexample", "F4_fixed_witness",
     "macros_adjacent_counterexample",
+    "stdLike_xMachine", "exec_is_instance", "assemble_simulates_exec", "assemble_simulates_exec_fault",
+    "nonvacuous_exec",
 ]]
 TRANSLATORS = ["instr_table", "asm_pass_tables"]
 LEVEL_TEXT = (
